@@ -584,6 +584,38 @@ theorem C16_header_append_keeps_old (f : Fn) (hf : f = .appendExchange ∨ f = .
   rw [if_neg hlen, ho]
   simp [h1, h2, h3]
 
+/-- a held header of 4 or more instances that LACKS one of the required three (reachable only through headers that are not in
+    Part 21 order): the append functions keep every held instance in place, fetch each missing one of FILE_NAME / FILE_DESCRIPTION /
+    FILE_SCHEMA (ids 2, 1, 3) from the header just read when that one has it, and the ids stay pairwise distinct -/
+theorem C16_header_merge_completes (old new : HMgr) (h4 : headerReplaceBelow ≤ old.nodes.length) (hw : Wf old) :
+    old.nodes <+: (merge old new).nodes ∧ Wf (merge old new) ∧
+    ∀ id, id = 1 ∨ id = 2 ∨ id = 3 → (old.has id = true ∨ (new.find id).isSome = true) → (merge old new).has id = true := by
+  have ho : headerMergeOrder = [2, 1, 3] := rfl
+  have hm : merge old new = mergeStep new (mergeStep new (mergeStep new old 2) 1) 3 := by
+    unfold merge; rw [if_neg (by omega), ho]; rfl
+  have w1 := mergeStep_wf new hw 2
+  have w2 := mergeStep_wf new w1 1
+  have w3 := mergeStep_wf new w2 3
+  rw [hm]
+  refine ⟨?_, w3, ?_⟩
+  · exact List.IsPrefix.trans (mergeStep_prefix new old 2)
+      (List.IsPrefix.trans (mergeStep_prefix new _ 1) (mergeStep_prefix new _ 3))
+  · intro id hid h
+    rcases hid with rfl | rfl | rfl
+    · -- id 1: second step
+      have : (mergeStep new (mergeStep new old 2) 1).has 1 = true :=
+        mergeStep_fills new w1 (by decide) (by
+          rcases h with h | h
+          · exact Or.inl (mergeStep_mono new hw 2 h)
+          · exact Or.inr h)
+      exact mergeStep_mono new w2 3 this
+    · have : (mergeStep new old 2).has 2 = true := mergeStep_fills new hw (by decide) h
+      exact mergeStep_mono new w2 3 (mergeStep_mono new w1 1 this)
+    · exact mergeStep_fills new w2 (by decide) (by
+        rcases h with h | h
+        · exact Or.inl (mergeStep_mono new w1 1 (mergeStep_mono new hw 2 h))
+        · exact Or.inr h)
+
 /-- the order matters: in a NEW object (`_headerId` 0) a working-session file whose header has an optional entity BEFORE the
     three required ones — not the order Part 21 prescribes, and never written by the library — gives that entity id 1, pushes
     FILE_DESCRIPTION / FILE_NAME / FILE_SCHEMA to 2 / 3 / 4, and the next save drops the optional entity and writes
